@@ -174,6 +174,10 @@ func checkC08(c *Ctx, r *Report) {
 		checkSecuritySchemes(c, r, "C08.c", e.Ver, e.Pkg)
 	}
 
+	// the emitters read the IR, they never rewrite it (3.1 runs after 3.0 on the same slices)
+	ruleNoIRMutation(c, r, "C08.c")
+	checkManagerPassThrough(c, r, "C08.a")
+
 	// C08.f precondition of the delegated $ref-closure check
 	checkRefConstruction(c, r)
 
@@ -517,4 +521,38 @@ func checkInfoCopied(c *Ctx, r *Report, clause, g30, g31 string) {
 		ruleFieldFlow(c, r, ffSpec{Clause: clause, Fn: g30, Owner: w.extType(pkgKin, "Contact"), Field: f, Must: []string{"definitions.OpenAPIContact." + f}, AllowedFields: []string{"definitions.OpenAPIGeneratorConfig.Info", "definitions.OpenAPIInfo.Contact"}, Desc: "3.0 contact." + f})
 		ruleFieldFlow(c, r, ffSpec{Clause: clause, Fn: g31, Owner: w.extType(pkgHBase, "Contact"), Field: f, Must: []string{"definitions.OpenAPIContact." + f}, AllowedFields: []string{"definitions.OpenAPIGeneratorConfig.Info", "definitions.OpenAPIInfo.Contact"}, Desc: "3.1 contact." + f})
 	}
+}
+
+// checkManagerPassThrough (C08.a / C01.d): swagen.GenerateSpec hands its own controllers,
+// models and configuration to both emitters - not a filtered, re-keyed or renamed copy.
+func checkManagerPassThrough(c *Ctx, r *Report, clause string) {
+	w := c.W
+	const gm = "generator/swagen.GenerateSpec"
+	fi := need(c, r, clause, gm)
+	if fi == nil {
+		return
+	}
+	viol := ""
+	var sites []string
+	n := 0
+	for _, callee := range []string{"generator/swagen/swagen30.GenerateSpec", "generator/swagen/swagen31.GenerateSpec"} {
+		for _, cl := range callsIn(fi.SSA, false, nameIs(callee)) {
+			n++
+			sites = append(sites, w.pos(cl.Pos()))
+			args := cl.Common().Args
+			if len(args) != 3 || len(fi.SSA.Params) < 3 {
+				viol = fmt.Sprintf("%s: unexpected arity of %s", w.pos(cl.Pos()), callee)
+				continue
+			}
+			for i, a := range args {
+				if stripTrivial(a) != ssa.Value(fi.SSA.Params[i]) {
+					viol = fmt.Sprintf("%s: argument %d of %s is not GenerateSpec's own %s but a derived value (%s): the document would be generated from something other than the validated metadata (renamed operation ids, filtered routes, ...) while the routes generator uses the original", w.pos(cl.Pos()), i, callee, fi.SSA.Params[i].Name(), sliceOf(a))
+				}
+			}
+		}
+	}
+	if n != 2 {
+		viol = fmt.Sprintf("expected one call of each emitter in %s, found %d", gm, n)
+	}
+	r.add(clause, "fieldflow", gm+":pass-through", "both emitters receive the pipeline's controllers, models and configuration themselves", []string{gm}, sites, viol)
 }
